@@ -3,9 +3,9 @@
 P=$1
 cd /verif
 for seed in 0 1; do
-  /usr/bin/time -f "wall %e s" env VERIF_SEED=$seed VERIF_JOBS=8 ./check $P --tier quick > build/integrate_$P_$seed.log 2>&1
-  echo "seed $seed rc=$? $(tail -2 build/integrate_$P_$seed.log | tr '\n' ' ' | cut -c1-300)"
-  grep -E "^VIOLATION|^KNOWN-FINDING" build/integrate_$P_$seed.log | cut -c1-250 | head -8
+  /usr/bin/time -f "wall %e s" env VERIF_SEED=$seed VERIF_JOBS=8 ./check $P --tier quick > build/integrate_${P}_${seed}.log 2>&1
+  echo "seed $seed rc=$? $(tail -2 build/integrate_${P}_${seed}.log | tr '\n' ' ' | cut -c1-300)"
+  grep -E "^VIOLATION|^KNOWN-FINDING" build/integrate_${P}_${seed}.log | cut -c1-250 | head -8
   /opt/veriftools/pyvenv/bin/python -c "
 import json,jsonschema,sys
 e=json.load(open('/verif/evidence/$P.json'))
